@@ -1013,7 +1013,7 @@ func main() {
 	// 2. operation sequences
 	ncases := 1500
 	if c.Thorough() {
-		ncases = 40000
+		ncases = 12000 // ~25 min; 40 000 ran past the two-hour limit once every case went through five engines and both batch wrappers
 	}
 	r := hx.NewRNG(c.Seed)
 	shapes := map[string]int{}
